@@ -17,6 +17,8 @@ let zs t = let n = int t in times n (fun () -> rdz t)
 let read_op (t : toks) : op =
   match word t with
   | "fn" -> let k = int t in OFromNested (times k (fun () -> zs t))
+  (* TryFrom<&Vec<Vec<T>>> (borrowed): same row check, same result; one model body for both *)
+  | "fb" -> let k = int t in OFromNested (times k (fun () -> zs t))
   | "fa" ->
     let h = int t in let w = int t in
     let ents = Array.of_list (times (h * w) (fun () -> rdz t)) in
